@@ -1309,6 +1309,17 @@ class Compiler:
         fallback = identifier("__fallback", id(node))
         body += template("fallback = len(__stream)", fallback=fallback)
 
+        # The translation settings in force here hold for the fallback
+        # and for what comes after it: an element inside that changes
+        # them restores them only when it completes.
+        i18n = identifier("__i18n", id(node))
+        body += template(
+            "saved = __i18n_domain, __i18n_context, target_language",
+            saved=i18n)
+        restore_i18n = template(
+            "__i18n_domain, __i18n_context, target_language = saved",
+            saved=i18n)
+
         # The error variable is there for the fallback only.
         names = (node.name, )
         body += self._enter_assignment(names)
@@ -1335,7 +1346,7 @@ class Compiler:
             handlers=[ast.ExceptHandler(
                 type=ast.Tuple(elts=[Builtin("Exception")], ctx=ast.Load()),
                 name="__exc",
-                body=(error_assignment +
+                body=(error_assignment + restore_i18n +
                       template("del __stream[fallback:]", fallback=fallback) +
                       fallback_body
                       ),
